@@ -11,6 +11,11 @@ pub trait Kernel: Sync + Send {
     /// returns false when this kernel set has no single-block compression (e.g. AVX2 files)
     fn compress_in_place(&self, cv: &mut [u32; 8], block: &[u8; 64], block_len: u8, counter: u64, flags: u8) -> bool;
     fn compress_xof(&self, cv: &[u32; 8], block: &[u8; 64], block_len: u8, counter: u64, flags: u8) -> Option<[u8; 64]>;
+    /// compress_xof writing through a caller-supplied `out` pointer of any alignment (raw C/assembly kernels only;
+    /// the Rust Platform API returns the block by value); false when not available
+    fn compress_xof_to(&self, _cv: &[u32; 8], _block: &[u8; 64], _block_len: u8, _counter: u64, _flags: u8, _out: *mut u8) -> bool {
+        false
+    }
     /// `inputs[j]` points at `blocks*64` readable bytes; writes 32 bytes per input to the start of `out`.
     fn hash_many(&self, inputs: &[*const u8], blocks: usize, key: &[u32; 8], counter: u64, inc: bool, flags: u8, fs: u8, fe: u8, out: &mut [u8], need: usize);
     /// returns false when this kernel set has no xof_many
